@@ -218,7 +218,8 @@ Proof.
   - (* CYield *)
     destruct k as [| |c].
     + apply Inv_ret, R.
-    + destruct inc as [e|]; [apply Inv_ret, R|]. destruct R as [M [Hr Hf]]. split; [|reflexivity].
+    + destruct inc as [e|]; [apply Inv_ret, R|]. destruct (ckif_spins _ _ _); [|apply Inv_ret, R].
+      destruct R as [M [Hr Hf]]. split; [|reflexivity].
       apply M_block_yield_same; auto; rewrite Ec; [reflexivity|apply ctl_ok_plain; plain].
     + pose proof (Run_scope_exit t _ c inc R) as R1.
       destruct (scope_exit (incs s0 t) c t inc) as [s1 x]. destruct x; apply Inv_ret, R1.
